@@ -6,7 +6,8 @@ import vlib
 RING_HARNESS = ["kfmt/c16rb_ring_test.go"]
 HAL_HARNESS = ["hal/c16_bringup_test.go"]
 HAL_SHIM = {"kernel/device/zz_verif_c16_device_shim.go": "hal/c16_device_shim.go",
-            "kernel/device/tty/zz_verif_c16_tty_shim.go": "hal/c16_tty_shim.go"}
+            "kernel/device/tty/zz_verif_c16_tty_shim.go": "hal/c16_tty_shim.go",
+            "kernel/kfmt/zz_verif_c16_kfmt_shim.go": "hal/c16_kfmt_shim.go"}
 UNITS = [341, 7, 680]
 
 
@@ -47,7 +48,7 @@ def ring_replay_of(events):
     """exact input of one recorded ring case: byte lengths of every operation and the first payload byte"""
     ops, base = [], None
     for e in events:
-        if e["k"] == "w":
+        if e["k"] in ("w", "pw"):
             if base is None and e["p"]:
                 base = e["p"][0][0]
             ops.append(["w", total(e["p"])])
@@ -57,7 +58,7 @@ def ring_replay_of(events):
             ops.append(["d", 0])
         elif e["k"] == "panic":
             ops.append(["w", total(e["p"])] if "p" in e else ["r", e["n"]] if "n" in e else ["d", 0])
-    return {"kind": "ring", "script": {"raw": True, "base": base or 0, "ops": ops}}
+    return {"kind": "ring", "script": {"raw": True, "global": bool(events and events[0].get("global")), "base": base or 0, "ops": ops}}
 
 
 def run_ring(ctx, d, q):
@@ -100,6 +101,31 @@ def run_ring(ctx, d, q):
                       ring_replay_of(ev))
 
 
+def run_handover(ctx, d, q):
+    """kfmt's own hand-over path (Printf into the early buffer, SetOutputSink(recorder)): the TLC scripts again and
+    early-log totals exactly at k*2048, k*2048 +- 1.  Only on a ring that passed (io.Copy spins on a broken one)."""
+    sel = os.path.join(ctx.work, "c16_ring_sel.ndjson")
+    tr = os.path.join(ctx.work, "c16_ring_h.ndjson")
+    rc, out, _ = ctx.gotest("kernel", "kfmt", RING_HARNESS, "TestVerifC16RingHandover", env={"SCRIPTS": sel, "TRACE_OUT": tr},
+                            timeout=180 if q else 600)
+    if rc != 0:
+        raise vlib.Broken("ring hand-over harness failed:\n" + out[-3000:])
+    both = os.path.join(ctx.work, "c16_ring_h_all.ndjson")
+    with open(both, "w") as w:
+        for case in cases_of(tr):
+            case[0]["leg"] = "G-handover" if "ops" in case[0] else "T-handover"
+            for e in case:
+                w.write(json.dumps(e, separators=(",", ":")) + "\n")
+            if any(e["k"] == "drain" and e.get("got") for e in case):
+                ctx.distinct(["handover", [e for e in case if e["k"] not in ("case", "reset")]])
+    acc, nev, mism = ctx.validate_traces("RingTrace", "RingTrace", both, ("kfmt",), name="V-handover", timeout=1200,
+                                         parallel=3 if q else 12)
+    for m in mism[:3]:
+        ev = m["case_events"]
+        ctx.violation({"leg": ev[0].get("leg"), "part": "early log hand-over (kfmt.SetOutputSink)", "mismatch": m["mismatch"],
+                       "exact": ev[0].get("exact"), "event": ev[m["line_in_case"] - 1]}, ring_replay_of(ev))
+
+
 def run_hal(ctx, d, q):
     casesf = os.path.join(ctx.work, "c16_hal_cases.ndjson")
     sel = os.path.join(ctx.work, "c16_hal_sel.ndjson")
@@ -114,6 +140,7 @@ def run_hal(ctx, d, q):
     with open(sel, "w") as f:
         for i, c in enumerate(chosen):
             c["unit"] = UNITS[(i + ctx.seed) % 3]
+            c["align"] = (i // 3) % 2 == 0
             f.write(json.dumps(c) + "\n")
     ctx.cov["legs"]["hal-scenarios"] = {"emitted": len(allc), "replayed": len(chosen)}
     trg = os.path.join(ctx.work, "c16_hal_g.ndjson")
@@ -122,7 +149,7 @@ def run_hal(ctx, d, q):
     if rc != 0:
         raise vlib.Broken("hal scenario harness failed:\n" + out[-3000:])
     trt = os.path.join(ctx.work, "c16_hal_t.ndjson")
-    rc, out, _ = ctx.gotest("kernel", "hal", HAL_HARNESS, "TestVerifC16HalRandom", env={"NTRACES": 120 if q else 10000, "TRACE_OUT": trt},
+    rc, out, _ = ctx.gotest("kernel", "hal", HAL_HARNESS, "TestVerifC16HalRandom", env={"NTRACES": 120 if q else 10000, "TRACE_OUT": trt, "C16_SWEEP_K": 2 if q else 3},
                             extra_files=HAL_SHIM, timeout=600)
     if rc != 0:
         raise vlib.Broken("hal random harness failed:\n" + out[-3000:])
@@ -154,10 +181,10 @@ def run(ctx):
     q = ctx.quick
     ctx.rule = ("ring: a case = sequence of Write/Read/io.Copy calls on a real kfmt.ringBuffer (every behaviour of RingBufModel with Size 4 up to "
                 "4 (quick) / 5 (thorough) operations, scaled by 512 +-1 bytes after moving the indices to 4 different offsets; random chunk "
-                "sizes around 2047/2048 at real scale), non-trivial when something was read back.  hal: a case = (registered drivers "
+                "sizes around 2047/2048 at real scale; the same scripts and early-log totals exactly at k*2048 and k*2048 +- 1, k = 1..3, in 5 chunkings from 4 start offsets through kfmt.Printf / SetOutputSink), non-trivial when something was read back.  hal: a case = (registered drivers "
                 "[order, kind, probe/init outcome, chatter] in registration order, log chunks before / between / after the driver steps), "
                 "every behaviour of BringupModel (<= 2 (quick) / 3 (thorough) drivers of any order/kind/outcome, 3-4 consoles+terminals, "
-                "<= 2 chunks) replayed with 3 byte scalings, plus random scenarios (<= 8 drivers, any int8 order, chunks to 2.7 kB); "
+                "<= 2 chunks) replayed with 3 byte scalings, plus random scenarios (<= 8 drivers, any int8 order, chunks to 2.7 kB) and calibrated scenarios whose early log is exactly k*2048 and k*2048 +- 1 bytes when the terminal takes over; "
                 "non-trivial when at least one driver is registered")
     ctx.assumptions += [
         "the HAL's own log messages are ASCII; everything the environment logs is >= 128 (serial pattern), which is how the monitor follows the log without depending on message wording",
@@ -191,9 +218,13 @@ def run(ctx):
     # ---- hal legs G/T/V.  DetectHardware drains the ring with io.Copy: with a broken ring that can spin for ever, so the
     #      bring-up part is only exercised on a ring that passed (the ring violation is the verdict then)
     if ctx.violations:
-        ctx.note("bring-up legs skipped: the early ring itself violates its part of C16")
+        ctx.note("hand-over and bring-up legs skipped: the early ring itself violates its part of C16")
     else:
-        run_hal(ctx, d, q)
+        run_handover(ctx, d, q)
+        if ctx.violations:
+            ctx.note("bring-up legs skipped: the hand-over of the early log in kfmt violates C16")
+        else:
+            run_hal(ctx, d, q)
     ctx.cov["exhaustive"] = (not q) and not ctx.violations
     ctx.cov["explanation"] = ("exhaustive = every behaviour TLC enumerated for the two small-scope models was replayed on the real code and judged "
                               "(thorough tier); the quick tier replays seeded samples (900 ring scripts; every 3-driver bring-up scenario without chunks plus 500 sampled ones)")
